@@ -90,6 +90,15 @@ class StmtsMixin:
             vals = [self.ev(st, r) for r in rhs]
             rts = [r.get('t') for r in rhs]
         vals = [copyval(v) for v in vals]
+        if len(rhs) == len(lhs):
+            for l, r in zip(lhs, rhs):
+                rr = r
+                while rr.get('_') == 'ParenExpr': rr = rr['X']
+                if not (l['_'] == 'Ident' and l['Name'] == '_') and rr.get('t') is not None and self.tt.kind(rr['t']) == 'map' \
+                   and rr.get('_') in ('Ident', 'SelectorExpr') and not rr.get('cv') and self.function_writes_maps():
+                    # maps are modelled as values held by one variable or field; a second name for the same map would not
+                    # see writes through the first (G0 limitation, refused rather than mis-modelled)
+                    raise Unsupported('a map is given a second name (%s @%s) in a function that writes map elements' % (rr.get('Name') or rr.get('Sel', {}).get('Name'), s.get('line')))
         for l, v, rt in zip(lhs, vals, rts):
             if l['_'] == 'Ident' and l['Name'] == '_':
                 continue
@@ -98,6 +107,31 @@ class StmtsMixin:
             if l['_'] == 'Ident' and l.get('obj'):
                 v = self.implicit_convert(st, v, rt, l['obj'].get('t'))
             self.assign_to(st, l, v)
+
+    def function_writes_maps(self):
+        fr = self.frame
+        if fr is None or getattr(fr, 'decl', None) is None:
+            return True
+        if '_wm' not in fr.__dict__:
+            found = [False]
+            def walk(n):
+                if isinstance(n, list):
+                    for x in n: walk(x)
+                elif isinstance(n, dict):
+                    k = n.get('_')
+                    tg = []
+                    if k == 'AssignStmt': tg = n['Lhs']
+                    elif k == 'IncDecStmt': tg = [n['X']]
+                    elif k == 'CallExpr' and n.get('Fun', {}).get('Name') == 'delete': found[0] = True
+                    for t in tg:
+                        while t.get('_') == 'ParenExpr': t = t['X']
+                        if t.get('_') == 'IndexExpr' and t['X'].get('t') is not None and self.tt.kind(t['X']['t']) == 'map':
+                            found[0] = True
+                    for kk, v in n.items():
+                        if kk not in ('obj', 'sel', 'implicit') and isinstance(v, (dict, list)): walk(v)
+            walk(fr.decl.get('Body'))
+            fr._wm = found[0]
+        return fr._wm
 
     def assign_to(self, st, l, v):
         k = l['_']
@@ -374,6 +408,9 @@ class StmtsMixin:
             targets = [node['X']]
         elif k == 'RangeStmt':
             targets = [x for x in (node.get('Key'), node.get('Value')) if x]
+        elif k == 'CallExpr' and node.get('Fun', {}).get('_') == 'Ident' and node['Fun'].get('Name') == 'delete' \
+                and (node['Fun'].get('isBuiltin') or (node['Fun'].get('obj') or {}).get('kind') == 'Builtin') and node.get('Args'):
+            targets = [node['Args'][0]]          # delete(m, k) assigns the map
         for t in targets:
             while t['_'] in ('ParenExpr',):
                 t = t['X']
